@@ -816,8 +816,14 @@ static Type *enum_specifier(Token **rest, Token *tok) {
     char *name = get_ident(tok);
     tok = tok->next;
 
-    if (equal(tok, "="))
-      val = const_expr(&tok, tok->next);
+    if (equal(tok, "=")) {
+      // C11 6.7.2.2p2: the value shall be representable as an int.
+      Token *start = tok->next;
+      int64_t v = const_expr(&tok, tok->next);
+      if (v < INT32_MIN || v > INT32_MAX)
+        error_tok(start, "enumerator value is not representable as int");
+      val = v;
+    }
 
     VarScope *sc = push_scope(name);
     sc->enum_ty = ty;
